@@ -8,7 +8,7 @@ namespace SoyVerif.Model.Lex
 open SoyVerif SoyVerif.Model
 
 /-- `lexNegative`, called by lexInsideTag (`l0`) right after reading '-' -/
-theorem lexNegative_sat {n : Int} {l0 l : Lexer} (hn : l.len = n ∧ (l.mp : Int) ≤ n ∧ 0 ≤ l.tagStart ∧ l.tagStart ≤ n ∧ (l.bad = 0 ∧ l.cnt ≤ 2 * l.start) ∧ l.tagBad = 0) (h0 : 0 ≤ l.start)
+theorem lexNegative_sat {n : Int} {l0 l : Lexer} (hn : l.len = n ∧ (l.mp : Int) ≤ n ∧ 0 ≤ l.tagStart ∧ l.tagStart ≤ n ∧ (l.bad = 0 ∧ l.cnt ≤ 2 * l.start ∧ l.tot ≤ l.start) ∧ l.tagBad = 0) (h0 : 0 ≤ l.start)
     (h1 : l.start ≤ l0.pos) (h2 : l.pos ≤ n) (hadv : l0.pos < l.pos) (hn0 : l0.pos < n) (hi0 : l.input = l0.input) :
     Sat (lexNegative l) (Post n .insideTag l0) := by
   unfold lexNegative
@@ -51,7 +51,7 @@ theorem isLetterOrUnderscore_nonneg {r : Int} (h : isLetterOrUnderscore r = true
   simp only [isLetterOrUnderscore, Bool.or_eq_true, Bool.and_eq_true, decide_eq_true_eq, beq_iff_eq] at h
   omega
 
-theorem lexSymbol_sat {n : Int} {l0 l : Lexer} (hn : l.len = n ∧ (l.mp : Int) ≤ n ∧ 0 ≤ l.tagStart ∧ l.tagStart ≤ n ∧ (l.bad = 0 ∧ l.cnt ≤ 2 * l.start) ∧ l.tagBad = 0) (h0 : 0 ≤ l.start)
+theorem lexSymbol_sat {n : Int} {l0 l : Lexer} (hn : l.len = n ∧ (l.mp : Int) ≤ n ∧ 0 ≤ l.tagStart ∧ l.tagStart ≤ n ∧ (l.bad = 0 ∧ l.cnt ≤ 2 * l.start ∧ l.tot ≤ l.start) ∧ l.tagBad = 0) (h0 : 0 ≤ l.start)
     (h1 : l.start ≤ l0.pos) (h2 : l.pos ≤ n) (hadv : l0.pos < l.pos) (hi0 : l.input = l0.input) :
     Sat (lexSymbol l) (Post n .insideTag l0) := by
   unfold lexSymbol
@@ -68,7 +68,7 @@ theorem lexSymbol_sat {n : Int} {l0 l : Lexer} (hn : l.len = n ∧ (l.mp : Int) 
 
 /-- facts about the lexer handed to the later cases of lexInsideTag: `r` was read from `l0`;
     unless a case condition peeked (`r` = '/' or '='), `backup` returns to `l0.pos` -/
-theorem lexInsideTagRest_sat {n : Int} {l0 l : Lexer} {r : Int} (hn : l.len = n ∧ (l.mp : Int) ≤ n ∧ 0 ≤ l.tagStart ∧ l.tagStart ≤ n ∧ (l.bad = 0 ∧ l.cnt ≤ 2 * l.start) ∧ l.tagBad = 0) (h0 : 0 ≤ l.start)
+theorem lexInsideTagRest_sat {n : Int} {l0 l : Lexer} {r : Int} (hn : l.len = n ∧ (l.mp : Int) ≤ n ∧ 0 ≤ l.tagStart ∧ l.tagStart ≤ n ∧ (l.bad = 0 ∧ l.cnt ≤ 2 * l.start ∧ l.tot ≤ l.start) ∧ l.tagBad = 0) (h0 : 0 ≤ l.start)
     (h1 : l.start = l0.pos) (h2 : l.pos ≤ n)
     (hr : (r = -1 ∧ l.pos = l0.pos) ∨ (0 ≤ r ∧ l0.pos < l.pos ∧ (128 ≤ r ∨ r = 47 ∨ r = 61 ∨ l.pos = l0.pos + 1)))
     (hb : r = 47 ∨ r = 61 ∨ l.pos - l.width = l0.pos)
@@ -101,7 +101,7 @@ theorem lexInsideTagRest_sat {n : Int} {l0 l : Lexer} {r : Int} (hn : l.len = n 
   · first | exact errorf_sat (by lx) (by inq) | exact errorfAt_sat (by lx) (by inq) (by first | exact tag_err (by lx) (by lx) (Or.inl rfl) | exact tag_err (by lx) (by lx) (Or.inr rfl))
 
 set_option maxHeartbeats 1000000 in
-theorem lexInsideTagMid_sat {n : Int} {l0 l : Lexer} {r : Int} (hn : l.len = n ∧ (l.mp : Int) ≤ n ∧ 0 ≤ l.tagStart ∧ l.tagStart ≤ n ∧ (l.bad = 0 ∧ l.cnt ≤ 2 * l.start) ∧ l.tagBad = 0) (h0 : 0 ≤ l.start)
+theorem lexInsideTagMid_sat {n : Int} {l0 l : Lexer} {r : Int} (hn : l.len = n ∧ (l.mp : Int) ≤ n ∧ 0 ≤ l.tagStart ∧ l.tagStart ≤ n ∧ (l.bad = 0 ∧ l.cnt ≤ 2 * l.start ∧ l.tot ≤ l.start) ∧ l.tagBad = 0) (h0 : 0 ≤ l.start)
     (h1 : l.start = l0.pos) (h2 : l.pos ≤ n)
     (hr : (r = -1 ∧ l.pos = l0.pos) ∨ (0 ≤ r ∧ l0.pos < l.pos ∧ (128 ≤ r ∨ r = 47 ∨ l.pos = l0.pos + 1)))
     (hb : r = 47 ∨ l.pos - l.width = l0.pos)
